@@ -172,17 +172,17 @@ theorem breakerAt_shape {prev : Option Nat} {l : Text} {n : Nat}
 /-! ## an accepted candidate -/
 
 /-- what `examine` has checked when it returns `accept e` for a match ending at `eos0` -/
-structure Accepted (ck : Option (List (List (List Nat)))) (input s : Text) (eos0 e : Nat) : Prop where
+structure Accepted (v : CkVariant) (ck : Option (List (List (List Nat)))) (input s : Text) (eos0 e : Nat) : Prop where
   level0 : parenLevel (s.take eos0) = 0
   ext : eos0 ≤ e
   le : e ≤ s.length
   tail : ∀ c ∈ (s.drop eos0).take (e - eos0), isProhibitedBos c = true
   notItem : isItemizeHeader s = false
   notCont : e < s.length → isContinuousPhrase s e = some false
-  noWord : ∀ lexs, ck = some lexs → hasNonBreakWord lexs input (blen (s.take e)) = .ok false
+  noWord : ∀ lexs, ck = some lexs → hasNonBreakWord v lexs input (blen (s.take e)) = .ok false
 
-theorem examine_accept {ck : Option (List (List (List Nat)))} {input s : Text} {eos0 e : Nat}
-    (h0 : eos0 ≤ s.length) (h : examine ck input s eos0 = .accept e) : Accepted ck input s eos0 e := by
+theorem examine_accept {v : CkVariant} {ck : Option (List (List (List Nat)))} {input s : Text} {eos0 e : Nat}
+    (h0 : eos0 ≤ s.length) (h : examine v ck input s eos0 = .accept e) : Accepted v ck input s eos0 e := by
   unfold examine at h
   split at h
   · cases h
@@ -223,10 +223,10 @@ theorem examine_accept {ck : Option (List (List (List Nat)))} {input s : Text} {
 
 /-! ## the scan over the matches -/
 
-theorem scan_some {ck : Option (List (List (List Nat)))} {input s : Text} :
+theorem scan_some {v : CkVariant} {ck : Option (List (List (List Nat)))} {input s : Text} :
     ∀ (l : Text) (k : Nat) (prev : Option Nat) (skip : Nat) (r : Cand),
-      s.drop k = l → scan ck input s k prev skip l = some r →
-      r ≠ .veto ∧ ∃ j n pv, breakerAt pv (s.drop (k + j)) = some n ∧ examine ck input s (k + j + n) = r := by
+      s.drop k = l → scan v ck input s k prev skip l = some r →
+      r ≠ .veto ∧ ∃ j n pv, breakerAt pv (s.drop (k + j)) = some n ∧ examine v ck input s (k + j + n) = r := by
   intro l
   induction l with
   | nil => intro k prev skip r _ h; simp [scan] at h
@@ -287,10 +287,10 @@ theorem negOf_pos {n e : Nat} (hn : 1 ≤ n) : negOf n ≠ .pos e := by
   have : ¬ n = 0 := by omega
   simp [this]
 
-theorem getEos_pos {limit : Nat} {ck : Option (List (List (List Nat)))} {input : Text} {e : Nat}
-    (hl : 1 ≤ limit) (hne : input ≠ []) (h : getEos limit ck input = .ok (.pos e)) :
+theorem getEos_pos {limit : Nat} {v : CkVariant} {ck : Option (List (List (List Nat)))} {input : Text} {e : Nat}
+    (hl : 1 ≤ limit) (hne : input ≠ []) (h : getEos v limit ck input = .ok (.pos e)) :
     ∃ k n pv, breakerAt pv ((input.take limit).drop k) = some n ∧ k + n ≤ (input.take limit).length ∧
-      Accepted ck input (input.take limit) (k + n) e := by
+      Accepted v ck input (input.take limit) (k + n) e := by
   unfold getEos at h
   have : input.isEmpty = false := by cases input <;> simp_all
   simp only [this] at h
@@ -321,8 +321,8 @@ theorem getEos_pos {limit : Nat} {ck : Option (List (List (List Nat)))} {input :
     · simp only [Res.ok.injEq] at h
       exact absurd h (negOf_pos hslen)
 
-theorem getEos_pos_bounds {limit : Nat} {ck : Option (List (List (List Nat)))} {input : Text} {e : Nat}
-    (hl : 1 ≤ limit) (hne : input ≠ []) (h : getEos limit ck input = .ok (.pos e)) : 1 ≤ e ∧ e ≤ input.length := by
+theorem getEos_pos_bounds {limit : Nat} {v : CkVariant} {ck : Option (List (List (List Nat)))} {input : Text} {e : Nat}
+    (hl : 1 ≤ limit) (hne : input ≠ []) (h : getEos v limit ck input = .ok (.pos e)) : 1 ≤ e ∧ e ≤ input.length := by
   obtain ⟨k, n, pv, hb, hlen, acc⟩ := getEos_pos hl hne h
   have := breakerAt_bounds hb
   have h1 := acc.ext
@@ -344,8 +344,8 @@ theorem cons_eq_ok {x : Sent} {r : SplitRes} {l : List Sent} (h : SplitRes.cons 
   | panic => simp [SplitRes.cons] at h
   | fuelOut => simp [SplitRes.cons] at h
 
-theorem splitFuel_ok {limit : Nat} {ck : Option (List (List (List Nat)))} (hl : 1 ≤ limit) :
-    ∀ (fuel pos : Nat) (rest : Text) (l : List Sent), splitFuel limit ck fuel pos rest = .ok l →
+theorem splitFuel_ok {limit : Nat} {v : CkVariant} {ck : Option (List (List (List Nat)))} (hl : 1 ≤ limit) :
+    ∀ (fuel pos : Nat) (rest : Text) (l : List Sent), splitFuel v limit ck fuel pos rest = .ok l →
       Contig pos l (pos + blen rest) ∧ (l.map (·.chunk)).flatten = rest := by
   intro fuel
   induction fuel with
@@ -383,8 +383,8 @@ theorem splitFuel_ok {limit : Nat} {ck : Option (List (List (List Nat)))} (hl : 
           rw [hsplit, ← Nat.add_assoc]; exact hc
         · simp only [List.map_cons, List.flatten_cons, hf, List.take_append_drop]
 
-theorem splitFuel_terminates {limit : Nat} {ck : Option (List (List (List Nat)))} (hl : 1 ≤ limit) :
-    ∀ (fuel pos : Nat) (rest : Text), rest.length ≤ fuel → splitFuel limit ck fuel pos rest ≠ .fuelOut := by
+theorem splitFuel_terminates {limit : Nat} {v : CkVariant} {ck : Option (List (List (List Nat)))} (hl : 1 ≤ limit) :
+    ∀ (fuel pos : Nat) (rest : Text), rest.length ≤ fuel → splitFuel v limit ck fuel pos rest ≠ .fuelOut := by
   intro fuel
   induction fuel with
   | zero =>
@@ -405,14 +405,14 @@ theorem splitFuel_terminates {limit : Nat} {ck : Option (List (List (List Nat)))
         have hb := getEos_pos_bounds hl (by simp) hg
         have hrec := ih (pos + blen ((c :: cs).take e)) ((c :: cs).drop e) (by simp only [List.length_drop]; omega)
         intro hc
-        generalize splitFuel limit ck fuel (pos + blen ((c :: cs).take e)) ((c :: cs).drop e) = r at hrec hc
+        generalize splitFuel v limit ck fuel (pos + blen ((c :: cs).take e)) ((c :: cs).drop e) = r at hrec hc
         cases r <;> simp [SplitRes.cons] at hc hrec
 
 /-- every sentence but the last is a non-negative answer of `get_eos` on the rest of the text -/
-theorem splitFuel_link {limit : Nat} {ck : Option (List (List (List Nat)))} (hl : 1 ≤ limit) :
-    ∀ (fuel pos : Nat) (rest : Text) (l : List Sent), splitFuel limit ck fuel pos rest = .ok l →
+theorem splitFuel_link {limit : Nat} {v : CkVariant} {ck : Option (List (List (List Nat)))} (hl : 1 ≤ limit) :
+    ∀ (fuel pos : Nat) (rest : Text) (l : List Sent), splitFuel v limit ck fuel pos rest = .ok l →
       ∀ x ∈ l.dropLast, ∃ pre post, rest = pre ++ x.chunk ++ post ∧ x.chunk ≠ [] ∧
-        getEos limit ck (x.chunk ++ post) = .ok (.pos x.chunk.length) := by
+        getEos v limit ck (x.chunk ++ post) = .ok (.pos x.chunk.length) := by
   intro fuel
   induction fuel with
   | zero =>
@@ -506,8 +506,8 @@ theorem parenLevel_append_tail (a ext : Text) (ha : parenLevel a = 0)
 /-- The sentence cut off by a non-negative `get_eos`: `pre ++ t ++ tt ++ ext` with `t` a terminator,
 `tt` further terminator characters matched with it, bracket level 0 at the end of `tt`, and `ext`
 the closing brackets / commas / terminators that may not start the next sentence. -/
-theorem getEos_pos_chunk {limit : Nat} {ck : Option (List (List (List Nat)))} {input : Text} {e : Nat}
-    (hl : 1 ≤ limit) (hne : input ≠ []) (h : getEos limit ck input = .ok (.pos e)) :
+theorem getEos_pos_chunk {limit : Nat} {v : CkVariant} {ck : Option (List (List (List Nat)))} {input : Text} {e : Nat}
+    (hl : 1 ≤ limit) (hne : input ≠ []) (h : getEos v limit ck input = .ok (.pos e)) :
     ∃ pre t tt ext, input.take e = pre ++ (t ++ tt) ++ ext ∧ IsTerminator t ∧
       (∀ c ∈ tt, isDotOrPeriod c = true) ∧ parenLevel (pre ++ (t ++ tt)) = 0 ∧
       (∀ c ∈ ext, isProhibitedBos c = true) := by
@@ -600,7 +600,7 @@ theorem lookupLens_bounds {lexs : List (List (List Nat))} {rest : List Nat} {n :
   exact (mem_keyLens.mp hk).1
 
 theorem checkEntries_none {input : Text} {eosB i : Nat} :
-    ∀ lens, checkEntries input eosB i lens = none → ∀ len ∈ lens, i + len < eosB := by
+    ∀ lens, checkEntries .cur input eosB i lens = none → ∀ len ∈ lens, i + len < eosB := by
   intro lens
   induction lens with
   | nil => intro _ len hl; simp at hl
@@ -617,7 +617,7 @@ theorem checkEntries_none {input : Text} {eosB i : Nat} :
         · exact ih h len hl
 
 theorem checkEntries_false {input : Text} {eosB i : Nat} :
-    ∀ lens, checkEntries input eosB i lens = some (.ok false) →
+    ∀ lens, checkEntries .cur input eosB i lens = some (.ok false) →
       ∃ r, charsFromByte input i = some r ∧ r ≤ 1 := by
   intro lens
   induction lens with
@@ -646,7 +646,7 @@ theorem eos_at_end {input pre post : Text} {e : Nat} (hs : input = pre ++ post) 
 
 theorem nonBreakLoop_false {lexs : List (List (List Nat))} {input : Text} {eosB e : Nat}
     (hE : eosB = blen (input.take e)) :
-    ∀ (n a : Nat), nonBreakLoop lexs input (utf8 input) eosB (List.range' a n) = .ok false →
+    ∀ (n a : Nat), nonBreakLoop .cur lexs input (utf8 input) eosB (List.range' a n) = .ok false →
       a + n ≤ eosB → ∀ i, a ≤ i → i < a + n → GoodAt lexs input eosB i := by
   intro n
   induction n with
@@ -677,7 +677,7 @@ theorem nonBreakLoop_false {lexs : List (List (List Nat))} {input : Text} {eosB 
       · exact ih (a + 1) h (by omega) i (by omega) (by omega)
 
 theorem hasNonBreakWord_false {lexs : List (List (List Nat))} {input : Text} {eosB e : Nat}
-    (hE : eosB = blen (input.take e)) (h : hasNonBreakWord lexs input eosB = .ok false) :
+    (hE : eosB = blen (input.take e)) (h : hasNonBreakWord .cur lexs input eosB = .ok false) :
     ∀ i, eosB - LOOKUP_BYTE_LENGTH ≤ i → i < eosB → GoodAt lexs input eosB i := by
   unfold hasNonBreakWord at h
   simp only at h
